@@ -628,6 +628,11 @@ class Interp:
                 return ('f', {'fadd': x + y, 'fsub': x - y, 'fmul': x * y, 'fdiv': x / y if y else float('inf')}[op])
             raise Incomplete('float op')
         w = ty[1]
+        if op == 'sub' and isinstance(a, tuple) and isinstance(b, tuple) and a[0] == 'p2i' and b[0] == 'p2i' \
+                and isinstance(a[1], Ptr) and isinstance(b[1], Ptr) and a[1].reg is b[1].reg:
+            # difference of two addresses inside one object (std::vector size, end - begin)
+            d = as_poly(a[1].off) - as_poly(b[1].off)
+            return (d.cval() & mask(w)) if d.isconst() else d
         if isinstance(a, int) and isinstance(b, int):
             m = mask(w)
             if op == 'add':
@@ -1004,6 +1009,31 @@ class Interp:
                 r = a * b
                 return [r & M64 - 1, int(r >= M64)]
             raise Incomplete('umul.with.overflow on symbolic values')
+        m_ = re.match(r'llvm\.x86\.avx2\.gather\.(d|q)\.q(\.256)?$', name)
+        if m_:
+            # (passthru, base, index vector, mask, scale): lane i loads base + sext(index_i)*scale when the mask's top bit is set
+            src0, base, idx, msk, scale = args
+            if not isinstance(base, Ptr) or not isinstance(scale, int):
+                raise Incomplete('gather with a symbolic base / scale')
+            iw = 32 if m_.group(1) == 'd' else 64
+            out = []
+            n = 4 if m_.group(2) else 2
+            for i in range(n):
+                mk = msk[i] if isinstance(msk, list) else msk
+                if not isinstance(mk, int):
+                    raise Incomplete('gather with a symbolic mask')
+                if not (mk >> 63) & 1:
+                    out.append(src0[i] if isinstance(src0, list) else src0)
+                    continue
+                k = idx[i]
+                if isinstance(k, Part):
+                    raise Incomplete('gather index is a slice of a symbolic value')
+                if isinstance(k, int):
+                    k = to_signed(k, iw)
+                elif not isinstance(k, Poly):
+                    raise Incomplete('gather index %r' % (k,))
+                out.append(s.load_cell(base.add(as_poly(k) * scale if not isinstance(k, int) else k * scale), 8))
+            return out
         m_ = re.match(r'llvm\.(ctlz|cttz|ctpop|bswap|bitreverse)\.i(\d+)$', name)
         if m_:
             x = args[0]
